@@ -266,16 +266,23 @@ func runWait(c Case) kit.Outcome {
 		}
 		deadline := r.started.Add(dt)
 		switch {
-		case c.UpAtMS < 0 || deadline.Before(upAt.Add(-5*time.Millisecond)):
-			// nothing came up in time: the caller times out
+		case c.UpAtMS < 0 || deadline.Before(upAt.Add(-40*time.Millisecond)):
+			// nothing came up in time: the caller times out. (The library arms its timer a little
+			// after the harness stamped the start; when a target did come up shortly after the
+			// deadline the verdicts depend on that gap and must reproduce alone.)
+			near := c.UpAtMS >= 0
 			if waited < dt-5*time.Millisecond {
 				return kit.Fail("returns-early", "%s caller %d returned after %v with %v although no target was live and DialTimeout is %v", r.caller.Form, r.id, waited, r.err, dt)
 			}
 			if r.err == nil {
-				return kit.Fail("success-without-target", "%s caller %d succeeded although no target was live", r.caller.Form, r.id)
+				o := kit.Fail("success-without-target", "%s caller %d succeeded although no target was live", r.caller.Form, r.id)
+				o.Timing = near
+				return o
 			}
 			if strict(r.caller.Form) && r.err != rpc.ErrTimeout {
-				return kit.Fail("wrong-error", "%s caller %d failed with %v after DialTimeout, expected ErrTimeout", r.caller.Form, r.id, r.err)
+				o := kit.Fail("wrong-error", "%s caller %d failed with %v after DialTimeout, expected ErrTimeout", r.caller.Form, r.id, r.err)
+				o.Timing = near
+				return o
 			}
 			waiters++
 		case deadline.After(upAt.Add(detect + slack)):
@@ -567,6 +574,7 @@ func runFallback(c Case) kit.Outcome {
 	stop := spin(client, 2)
 	time.Sleep(time.Until(t0.Add(time.Duration(c.FallbackAtMS) * time.Millisecond)))
 	d := time.Duration(c.FallbackMS) * time.Millisecond
+	fbBefore := time.Now() // the pause ends between fbBefore+d and fbAt+d
 	client.Fallback(d)
 	fbAt := time.Now()
 	// callers that start during the pause wait
@@ -585,7 +593,7 @@ func runFallback(c Case) kit.Outcome {
 		switch {
 		case r.In.Before(fbAt):
 			routedBefore++
-		case r.In.After(fbAt.Add(5*time.Millisecond)) && r.In.Before(fbAt.Add(d-5*time.Millisecond)) && r.Start.After(fbAt):
+		case r.In.After(fbAt.Add(5*time.Millisecond)) && r.In.Before(fbBefore.Add(d-5*time.Millisecond)) && r.Start.After(fbAt):
 			return kit.Fail("routed-during-fallback", "a call that started %v after Fallback(%v) began was routed to %s %v into the pause", r.Start.Sub(fbAt), d, r.Addr, r.In.Sub(fbAt))
 		case r.In.After(fbAt.Add(d)):
 			routedAfter++
